@@ -890,11 +890,12 @@ def check_C18(world, hist, pred):
                 if e["kind"] == "cleanup":
                     continue
                 ms = [m for m in hist["markers"] if m["m"] in text]
-                if ms and all(m["stream"] == "log" and not cap["log"] for m in ms):
+                from_logging = (ms and all(m["stream"] == "log" for m in ms)) or (not ms and "filler " in text)
+                if from_logging and not cap["log"]:
                     continue    # logging with log capture off passes straight through its handlers
-                if ms and all(m["stream"] == "log" for m in ms) and app_stream_handler_active:
+                if from_logging and app_stream_handler_active:
                     continue    # the application's own stream handler was not asked to be cleared
-                if ms and all(m["stream"] == "log" for m in ms) and cap["log"]:
+                if from_logging and cap["log"]:
                     stream = "log->" + stream
                 out.append(V("C18", "leak-to-real-stream", "%s:during-%s" % (stream, e["kind"] if e["kind"] == "step" else e["name"]),
                              seq=seq, text=text[:80]))
